@@ -21,6 +21,9 @@ type PropConfig struct {
 	Assumptions   []string `json:"assumptions"`
 	Bounded       []string `json:"bounded"`
 	Writers       []WriterSpec `json:"writers"`
+	// reachability canaries that are expected to be unsat: code that is dead on the unchanged
+	// tree for a stated reason (name -> reason); listed in the evidence, never an alarm
+	DeadSites map[string]string `json:"dead_sites"`
 }
 
 // protectedRegions: field regions whose complete writer set is known (and checked by
@@ -311,7 +314,9 @@ func cmdCheck(args []string) int {
 	for _, o := range todo {
 		if o.Canary {
 			canaries++
-			if o.Result == "unsat" {
+			if _, dead := cfg.DeadSites[o.Name]; dead && o.Result == "unsat" {
+				canaryOK++
+			} else if o.Result == "unsat" {
 				failures = append(failures, failure{o.Name, "vacuous: assumptions are contradictory (canary is unsat)", o})
 			} else if o.Result == "sat" {
 				canaryOK++
@@ -555,6 +560,7 @@ func cmdCheck(args []string) int {
 				"bounded_obligations":      cfg.Bounded,
 				"inlined_callees":          sortedKeys(inlinedFns),
 				"not_decided":              cfg.NotDecided,
+				"dead_sites_expected":      cfg.DeadSites,
 				"load_s":                   round2(eng.loadSecs),
 				"generate_s":               round2(genSecs),
 				"solve_s":                  round2(solveSecs),
